@@ -1,3 +1,3 @@
 #!/bin/sh
 # runs the repository's own suite with the verification guard off and prints only the summary
-make -C "${CELLO_REPO:-/repo}" check 2>&1 | grep -E "Suites|Tests |Asserts|rror" | sed 's/\x1b\[[0-9;]*m//g'
+make -C "${CELLO_REPO:-/repo}" check 2>&1 | grep -E "Suites|Tests |Asserts|rror:" | sed 's/\x1b\[[0-9;]*m//g'
